@@ -32,6 +32,8 @@ theorem c03_converges_on_source (c : Cfg) (hist : List (Nat × Bool)) (m : Nat) 
   c03_converges taskSem generated_wf_c01_for_c03 generated_wf_c02_for_c03 generated_wf_c03 c hist m
 
 
+theorem generated_all_ops_known_c03 : taskSemKnown = true := by decide
+
 -- BEGIN PINS (written by bin/mkpins; do not edit by hand)
 /-- the Go functions this property's model and obligations were written against have exactly the
 pinned skeletons (SHA-256 prefix of the atom list) -/
@@ -47,6 +49,7 @@ theorem pinned_skeletons_c03 :
 -- END PINS
 
 end SciVerif.Tie
+#print axioms SciVerif.Tie.generated_all_ops_known_c03
 #print axioms SciVerif.Tie.pinned_skeletons_c03
 #print axioms SciVerif.Tie.c03_converges_on_source
 #print axioms SciVerif.Tie.generated_wf_c03
